@@ -21,6 +21,89 @@ pub struct RandCase {
     /// probabilities in 1/20ths: cnot, cz, h, s, t
     pub p: [u8; 5],
     pub preset: u8,
+    /// a sequence of distribution-setting calls on one builder (kind, value in 1/20ths):
+    /// 0..4 p_cnot/p_cz/p_h/p_s/p_t, 5 with_cliffords, 6 clifford_t, 7 uniform
+    #[serde(default)]
+    pub calls: Vec<(u8, u8)>,
+}
+
+/// model of RandomCircuitBuilder's documented state: [cnot, cz, h, s, t], all 0 on a fresh builder
+fn model_calls(calls: &[(u8, u8)]) -> [f32; 5] {
+    let mut p = [0.0f32; 5];
+    for &(k, v) in calls {
+        let x = v as f32 / 20.0;
+        match k % 8 {
+            k @ 0..=4 => p[k as usize] = x,
+            5 => {
+                let q = (1.0 - p[4] - p[1]) / 3.0;
+                p[0] = q;
+                p[2] = q;
+                p[3] = q;
+            }
+            6 => {
+                // documented as p_t(x) followed by with_cliffords()
+                p[4] = x;
+                let q = (1.0 - p[4] - p[1]) / 3.0;
+                p[0] = q;
+                p[2] = q;
+                p[3] = q;
+            }
+            _ => p = [0.2; 5],
+        }
+    }
+    p
+}
+
+fn check_call_sequence(c: &RandCase, obs: &mut Obs) -> Result<(), String> {
+    let want = model_calls(&c.calls);
+    let by_calls = guarded("RandomCircuitBuilder (call sequence)", || {
+        let mut b = Circuit::random();
+        b.seed(c.seed).qubits(c.qubits).depth(c.depth);
+        for &(k, v) in &c.calls {
+            let x = v as f32 / 20.0;
+            match k % 8 {
+                0 => b.p_cnot(x),
+                1 => b.p_cz(x),
+                2 => b.p_h(x),
+                3 => b.p_s(x),
+                4 => b.p_t(x),
+                5 => b.with_cliffords(),
+                6 => b.clifford_t(x),
+                _ => b.uniform(),
+            };
+        }
+        b.build()
+    })?;
+    let explicit = guarded("RandomCircuitBuilder (explicit probabilities)", || {
+        Circuit::random()
+            .seed(c.seed)
+            .qubits(c.qubits)
+            .depth(c.depth)
+            .p_cnot(want[0])
+            .p_cz(want[1])
+            .p_h(want[2])
+            .p_s(want[3])
+            .p_t(want[4])
+            .build()
+    })?;
+    if by_calls != explicit {
+        return Err(format!(
+            "the builder calls {:?} document the probabilities {want:?} (cnot, cz, h, s, t), but a fresh builder given those values explicitly builds a different circuit for the same seed ({} vs {} gates)",
+            c.calls,
+            by_calls.num_gates(),
+            explicit.num_gates()
+        ));
+    }
+    let total: f32 = want.iter().sum();
+    if want.iter().all(|&x| x >= 0.0) && total >= 1.05 && by_calls.num_gates() != c.depth {
+        return Err(format!("probabilities {want:?} sum to {total} >= 1 but {} of {} gates were produced", by_calls.num_gates(), c.depth));
+    }
+    obs.class("call-sequence");
+    obs.class_if(c.calls.iter().filter(|(k, _)| k % 8 >= 5).count() >= 2, "two-presets-on-one-builder");
+    if by_calls.num_gates() >= 5 {
+        obs.nontrivial();
+    }
+    Ok(())
 }
 
 fn build_random(c: &RandCase) -> Circuit {
@@ -78,6 +161,9 @@ fn build_random_alt(c: &RandCase) -> Circuit {
 }
 
 fn check_random(c: &RandCase, obs: &mut Obs) -> Result<(), String> {
+    if !c.calls.is_empty() {
+        return check_call_sequence(c, obs);
+    }
     let a = guarded("RandomCircuitBuilder::build", || build_random(c))?;
     let b = guarded("RandomCircuitBuilder::build", || build_random(c))?;
     if a != b {
@@ -442,20 +528,31 @@ pub fn def(ctx: &Ctx) -> PropertyDef {
     let t = ctx.tier;
     PropertyDef {
         id: "C19",
-        rule: "seeds x admissible parameters. Random circuits (2-8 qubits, depth 0-60, probability vectors incl. zeros and sums < 1, the uniform / clifford_t / with_cliffords presets): build twice => equal, and equal again when the same parameters are given through a different sequence of builder calls (scrambled values first, setters in another order, explicit probabilities instead of a preset, weight(w) instead of min_weight(w).max_weight(w)); gate kinds only with non-zero probability, distinct in-range qubits, length <= depth (== depth when the probabilities sum to >= 1 with margin). Hidden shift (6-10 (12) qubits, depth 0-40, 0-3 CCZ): the exact state vector from the harness simulator has |<shift|C|0>|^2 == 1. Pauli gadgets (weights <= qubits, denominators 1-16): the gate list segments uniquely into L . pp . L^dagger with sorted distinct qubits of admissible weight, phase a non-zero multiple of pi/denominator, non-Clifford for even denominators >= 4. Equatorial stabiliser states (1-8 qubits, both backends): squared norm exactly 1 by the harness evaluator. Non-trivial = random circuit with >= 5 gates; hidden shift with >= 1 CCZ and a non-zero shift; gadget circuit with a non-empty basis-change layer; state with more edges than qubits.",
+        rule: "seeds x admissible parameters. Random circuits (2-8 qubits, depth 0-60, probability vectors incl. zeros and sums < 1, the uniform / clifford_t / with_cliffords presets): build twice => equal, and equal again when the same parameters are given through a different sequence of builder calls (scrambled values first, setters in another order, explicit probabilities instead of a preset, weight(w) instead of min_weight(w).max_weight(w)); sequences of 1-5 distribution-setting calls (p_*, with_cliffords, clifford_t, uniform) on one builder against a model of the documented builder state: the circuit must equal the one a fresh builder builds from the modelled probabilities; gate kinds only with non-zero probability, distinct in-range qubits, length <= depth (== depth when the probabilities sum to >= 1 with margin). Hidden shift (6-10 (12) qubits, depth 0-40, 0-3 CCZ): the exact state vector from the harness simulator has |<shift|C|0>|^2 == 1. Pauli gadgets (weights <= qubits, denominators 1-16): the gate list segments uniquely into L . pp . L^dagger with sorted distinct qubits of admissible weight, phase a non-zero multiple of pi/denominator, non-Clifford for even denominators >= 4. Equatorial stabiliser states (1-8 qubits, both backends): squared norm exactly 1 by the harness evaluator. Non-trivial = random circuit with >= 5 gates; hidden shift with >= 1 CCZ and a non-zero shift; gadget circuit with a non-empty basis-change layer; state with more edges than qubits.",
         assumptions: vec!["harness simulator / evaluator (see selftest)"],
         sections: vec![
             Section::random(
                 "random-circuits",
                 ctx.cases(20000, 400000),
                 || {
-                    (any::<u64>(), 2usize..=8, 0usize..=60, prop::array::uniform5(0u8..=10), 0u8..4)
-                        .prop_map(|(seed, qubits, depth, p, preset)| RandCase {
+                    (
+                        any::<u64>(),
+                        2usize..=8,
+                        0usize..=60,
+                        prop::array::uniform5(0u8..=10),
+                        0u8..4,
+                        prop_oneof![
+                            2 => Just(vec![]),
+                            1 => prop::collection::vec((0u8..8, 0u8..=10), 1..=5),
+                        ],
+                    )
+                        .prop_map(|(seed, qubits, depth, p, preset, calls)| RandCase {
                             seed,
                             qubits,
                             depth,
                             p,
                             preset,
+                            calls,
                         })
                 },
                 check_random,
